@@ -762,8 +762,8 @@ func (in *Interp) Eval(n *gen.Node) (any, error) {
 			if err != nil {
 				return nil, err
 			}
-			if IsVoid(v) {
-				return nil, in.errf(n.Args[i+1], "map value yields no value")
+			if IsVoid(v) || isMulti(v) {
+				return nil, in.errf(n.Args[i+1], "map value does not yield one value")
 			}
 			out[ks] = v
 		}
@@ -1716,8 +1716,8 @@ func (in *Interp) call(n *gen.Node) (any, error) {
 		if err != nil {
 			return nil, err
 		}
-		if in.V2 && IsVoid(v) {
-			return nil, in.errf(n.Args[0], "argument yields no value")
+		if in.V2 && (IsVoid(v) || isMulti(v)) {
+			return nil, in.errf(n.Args[0], "argument does not yield one value")
 		}
 		switch x := v.(type) {
 		case string:
